@@ -40,7 +40,7 @@ def H(v):
     return hexd(float(v))
 
 # ---------------------------------------------------------------------------------------------- data
-def gen_data(rng, nF=None, nneg=None):
+def gen_data(rng, nF=None, nneg=None, ties=None):
     """small line-search problem: x >= 0 current solution, x_F trial with negatives; AtA SPD-ish, Atb random"""
     nF = nF if nF is not None else rng.rint(1, 7)
     n = nF + rng.rint(0, 2)
@@ -51,15 +51,31 @@ def gen_data(rng, nF=None, nneg=None):
     nneg = nneg if nneg is not None else rng.rint(0, nF)
     negs = set(idx2 for idx2 in rng_sample(rng, list(range(nF)), nneg))
     xF = [(-round(0.05 + 2 * rng.unit(), 3) if i in negs else round(2 * rng.unit(), 3)) for i in range(nF)]
+    # ties: several coefficients reach zero at bit-for-bit the same distance along the descent (equal or power-of-two rescaled
+    # (x, x_F) pairs), so the sorted list of trial steps holds repeated values — in the middle and at its end
+    if ties is None:
+        ties = rng.chance(0.3)
+    if ties and len(negs) >= 2:
+        nl = sorted(negs)
+        t0 = rng.choice(nl)
+        if dfrom(int(H(x[F[t0]]), 16)) == 0.0:
+            x[F[t0]] = round(0.1 + 2 * rng.unit(), 3)
+        for j in nl:
+            if j != t0 and rng.chance(0.7):
+                k = 2.0 ** rng.choice([0, 0, 1, -1, -2])
+                x[F[j]] = x[F[t0]] * k; xF[j] = xF[t0] * k
     M = [[rng.unit() - 0.3 for _ in range(nF)] for _ in range(nF + 1)]
     AtA = [[sum(M[k][i] * M[k][j] for k in range(nF + 1)) + (0.05 if i == j else 0.0) for j in range(nF)] for i in range(nF)]
     style = rng.below(3)
+    tied_now = ties and len(negs) >= 2
+    if tied_now and rng.chance(0.75):
+        style = 2          # repeated steps matter when the search gets as far as them: make the large steps bad
     if style == 0:
         Atb = [2 * rng.unit() - 1 for _ in range(nF)]
     elif style == 1:   # x_F is the unconstrained minimiser: residual decreases towards alpha = 1 before projection
         Atb = [sum(AtA[i][j] * xF[j] for j in range(nF)) for i in range(nF)]
     else:              # minimiser near the current solution: large steps are bad, selection happens late
-        tau = 0.02 + 0.5 * rng.unit()   # unconstrained minimum along the line at alpha = tau: steps > 2 tau do not reduce the residual
+        tau = (0.01 + 0.1 * rng.unit()) if tied_now else 0.02 + 0.5 * rng.unit()   # unconstrained minimum along the line at alpha = tau: steps > 2 tau do not reduce the residual
         Atb = [sum(AtA[i][j] * (x[F[j]] + tau * (xF[j] - x[F[j]])) for j in range(nF)) for i in range(nF)]
     return {"nF": nF, "n": n, "F": F, "x": [H(v) for v in x], "xF": [H(v) for v in xF],
             "AtA": [H(AtA[i][j]) for j in range(nF) for i in range(nF)], "Atb": [H(v) for v in Atb]}
@@ -239,8 +255,15 @@ def check_forced(exe, mexe, datas, plan, out, cov, fixed_flag="1"):
     # phase A: sequential reference for each data set (free-running N=1 also serves as the first oracle run)
     refs = run_sched_cases(exe, [case_line("d%d" % i, d, 1, [-1]) for i, d in enumerate(datas)])
     reqs, meta = [], {}
+    reported = set()
     for pi, (di, N, suffix) in enumerate(plan):
         r = refs.get("d%d" % di)
+        if r and (r.get("hang") or r.get("fail")) and ("d%d" % di) not in reported:
+            # the single-worker free run that serves as the sequential reference did not come back
+            reported.add("d%d" % di)
+            out.violation("C12:walk_descents:hang" if r.get("hang") else "C12:walk_descents:crash",
+                          "free-running walk_descents with one worker did not return a result (%s)" % ("hang" if r.get("hang") else r["fail"][:200]),
+                          {"kind": "sched", "line": case_line("d%d" % di, datas[di], 1, [-1]), "N": 1})
         if not r or "ref" not in r:
             continue
         na = int(r["ref"]["na"][0])
@@ -546,8 +569,13 @@ def run(info, out):
     #    (a) exhaustive small configurations: one schedule per reachable transition of the model
     small = [(1, 0), (1, 1), (2, 0), (2, 1), (2, 2), (3, 1)] + ([(3, 2), (3, 4), (1, 2), (2, 3), (4, 2)] if thorough else [])   # (N, negatives) -> n_alpha = 2 + negatives
     datas, plan = [], []
-    for (N, nneg) in small:
-        d = gen_data(rng, nF=max(1, nneg + rng.below(2)), nneg=nneg)
+    def tied(d):
+        x = [dfrom(int(h, 16)) for h in d["x"]]; xF = [dfrom(int(h, 16)) for h in d["xF"]]
+        al = [x[f] / (x[f] - xF[k]) for k, f in enumerate(d["F"]) if xF[k] < 0 and x[f] > 0]
+        return len(al) - len(set(al))
+    small = [c + (False,) for c in small] + [(2, 2, True), (3, 2, True), (2, 3, True)] + ([(3, 3, True), (4, 2, True), (3, 4, True)] if thorough else [])
+    for (N, nneg, ties) in small:
+        d = gen_data(rng, nF=max(1, nneg + rng.below(2)), nneg=nneg, ties=ties)
         # make sure all the negatives count: x > 0 on F
         for k, fi in enumerate(d["F"]):
             if dfrom(int(d["x"][fi], 16)) == 0.0:
@@ -562,6 +590,11 @@ def run(info, out):
         datas.append(d)
         N = rng.choice([1, 1, 2, 2, 3, 3, 4, 5, 9])
         plan.append((len(datas) - 1, N, "rand %d %d %d" % (40 if thorough else 16, rng.below(1 << 20), rng.choice([0, 5, 15]))))
+        if tied(d):         # repeated trial steps: every way the copies can fall into one block or into neighbouring blocks
+            for N2 in (1, 2, 3, 4):
+                if N2 != N:
+                    plan.append((len(datas) - 1, N2, "rand %d %d %d" % (8 if thorough else 4, rng.below(1 << 20), rng.choice([0, 5]))))
+    cov["cases_with_repeated_trial_steps"] = sum(1 for d in datas if tied(d))
     refs = check_forced(exe, mexe, datas, plan, out, cov)
     #    (c) termination bound against the exact longest schedule of small configurations (model only)
     check_termination_bound(mexe, [(1, 2), (1, 3), (1, 4), (2, 2), (2, 3), (2, 4), (2, 5), (3, 3), (3, 4)] + ([(3, 6), (4, 4), (4, 5)] if thorough else []), out, cov)
